@@ -37,6 +37,8 @@ class Canon:
         defs: Dict[str, ast.expr] = {}
         self.loopvars: Dict[str, str] = {}  # scoped: filled while a walker is inside the loop
         self.loopnames: Set[str] = set()
+        self.with_defs: Dict[str, ast.expr] = {}
+        self.loop_order: Dict[str, int] = {}   # loop variable -> ordinal of its first loop (name-independent placeholder)
         self._loopstack: List[Dict[str, str]] = []
         for n in walk_no_nested(fn):
             if isinstance(n, ast.Assign):
@@ -57,10 +59,12 @@ class Canon:
                 for x in ast.walk(n.target):
                     if isinstance(x, ast.Name):
                         self.loopnames.add(x.id)
+                        self.loop_order.setdefault(x.id, len(self.loop_order))
             elif isinstance(n, ast.With):
                 for it in n.items:
                     if isinstance(it.optional_vars, ast.Name):
                         counts[it.optional_vars.id] = 2
+                        self.with_defs.setdefault(it.optional_vars.id, it.context_expr)
         self.single = {k: v for k, v in defs.items() if counts.get(k) == 1 and k not in self.params and k not in self.loopnames
                        and not isinstance(v, (ast.List, ast.Dict, ast.Set, ast.ListComp, ast.DictComp))}
         # locals assigned more than once: named after their FIRST definition, so that renaming them changes no key
@@ -76,6 +80,11 @@ class Canon:
         for k, v in order_seen.items():
             if counts.get(k, 0) >= 2 and k not in self.params and k not in self.loopnames:
                 self.multi_first[k] = v
+            elif counts.get(k, 0) == 1 and k not in self.params and k not in self.loopnames and k not in self.single:
+                self.multi_first[k] = v       # single definition that is not inlined (list / dict / comprehension): named after it
+        for k, v in self.with_defs.items():
+            if k not in self.params and k not in self.loopnames:
+                self.multi_first.setdefault(k, v)
         self._busy: Set[str] = set()
         # parameters bound to caller expressions (delegated guards are expressed in the caller's vocabulary)
         for k, v in self.bindings.items():
@@ -111,6 +120,9 @@ class Canon:
                 if isinstance(n.ctx, ast.Load):
                     if n.id in canon.loopvars:
                         return ast.Name(id=canon._loop_text(n.id, depth), ctx=ast.Load())
+                    if n.id in canon.loop_order and n.id not in canon.params:
+                        # a loop variable seen outside a walker's loop scope: positional placeholder, independent of its name
+                        return ast.Name(id=f"loopvar{canon.loop_order[n.id]}", ctx=ast.Load())
                     if n.id in canon.single and depth < 4:
                         return canon._inline(copy.deepcopy(canon.single[n.id]), depth + 1)
                     if n.id in canon.multi_first and n.id not in canon._busy:
@@ -151,6 +163,9 @@ class Canon:
         # inline inside (names other than comprehension vars)
         for g in comp.generators:
             g.iter = tr.visit(g.iter)
+            g.ifs = [tr.visit(c) for c in g.ifs]
+        if hasattr(comp, "elt"):
+            comp.elt = tr.visit(comp.elt)
         return comp
 
 
